@@ -111,5 +111,18 @@ pub fn replay_reg(v: &Value) -> (Value, Vec<String>) {
     if s == s2 {
         diffs.push("two independently built schemes compare equal".into());
     }
+    // handles of an independently built scheme are not interchangeable either: a context refuses them
+    for t in [Ty::Int, Ty::Bytes, Ty::Ip] {
+        if let (Some(_), Some(foreign)) = (s.get_list(&t.to_engine()), s2.get_list(&t.to_engine())) {
+            let accepted = std::panic::catch_unwind(std::panic::AssertUnwindSafe(|| {
+                let ctx = wirefilter::ExecutionContext::<()>::new(&s);
+                let _ = ctx.get_list_matcher(foreign);
+            }))
+            .is_ok();
+            if accepted {
+                diffs.push(format!("a context accepted the {:?} list handle of another scheme", t));
+            }
+        }
+    }
     (json!({"res": res, "probes": probes, "summary": sm, "eq_clone": s == cl, "eq_rebuild": s == s2}), diffs)
 }
